@@ -124,7 +124,7 @@ def run(name, grammars, jobs, variants=genrun.ALL_VARIANTS, **kw):
             if out['gen'][gname].get(vn, {}).get('rc') != 0:
                 continue
             for (mode, payload) in jobs.get(gname, []):
-                if mode in ('nest', 'nestr', 'tracen', 'xlate') or (vn == 'ts' and mode == 'trace'):
+                if mode in ('nest', 'nestr', 'tracen', 'xlate', 'rep') or (vn == 'ts' and mode == 'trace'):
                     continue
                 raw = out['res'][gname][vn].get((mode, payload))
                 ms = model.get((gname, vn, mode, payload))
